@@ -11,6 +11,8 @@ pub struct ArgMatches { pub x: u8 }
 pub struct OutputOptions<'a> { pub format: &'a str }
 #[verifier::external_body] pub fn write_result<T>(value: &Result<T, MonorailError>, opts: &OutputOptions<'_>) -> (r: Result<(), MonorailError>) { unimplemented!() }
 #[verifier::external_body] pub fn env_invocation() -> String { unimplemented!() }
+// R15 target: the value of an expression statement `E?;` is dropped at the end of the statement
+#[verifier::external_body] pub fn drop_stmt_value<T>(v: T) { unimplemented!() }
 // R21 target: a lock guard that is not bound to a named variable is dropped at the end of its statement
 #[verifier::external_body] pub fn lock_dropped(Tracked(w): Tracked<&mut World>)
     ensures !final(w).lock_held, final(w).effects == old(w).effects { unimplemented!() }
